@@ -44,7 +44,6 @@ var rangeExceptions = map[string]map[string]string{
 	"(*Context).Pow":        {"store Negative": "sign only"},
 	"(*Context).add":        {"store Negative": "sign only"},
 	"(*Context).setAsNaN":     {"*": "copies a NaN operand (selected by its Form tests): nothing to round"},
-	"(*Context).rootSpecials": {"store Exponent": "exponent of a zero halved/thirded: stays within the operand's range"},
 	"(*Context).integerPower": {"*": "intermediate: integerPower's result is rounded by its callers (Exp, Pow) — C07.R1 on those"},
 }
 
